@@ -163,9 +163,10 @@ def job_c16(clsname, width, seed=0):
 
 
 # ---------------------------------------------------------------------------------- C17
-LIT = {"args": ["(1,2)", "()", "('a',)", "(1,)"], "kwargs": ["{'a':1}", "{}", "{'k':'v','n':2}"],
-       "arg_iter": ["[1,2,3]", "[]", "['x']"], "args_iter": ["[(1,2),(3,4)]", "[]", "[(5,)]"],
-       "kwargs_iter": ["[{'a':1},{'a':2}]", "[]"]}
+LIT = {"args": ["(1,2)", "()", "([1,2],)", "([1,2],)", "(1,)"], "kwargs": ["{'a':1}", "{}", "{'a':[1]}", "{'a':[1]}"],
+       "arg_iter": ["[1,2,3]", "[]", "['x']", "[[1,2],[3]]", "[[1,2],[3]]", "[{'k':1}]"],
+       "args_iter": ["[(1,2),(3,4)]", "[]", "[(5,)]", "[([1],2)]", "[([1],2)]"],
+       "kwargs_iter": ["[{'a':1},{'a':2}]", "[]", "[{'a':[1,2]}]", "[{'a':[1,2]}]"]}
 PATHS = ["ctrlrun.work", "ctrlrun.work2", "ctrlrun.notcoro", "ctrlrun.slow"]
 
 
